@@ -37,6 +37,18 @@ type c39Async struct {
 	Producers  []int  `json:"producers"`   // records enqueued by each goroutine before the close
 	Racing     []int  `json:"racing"`      // records enqueued by each goroutine concurrently with Close
 	AfterClose int    `json:"after_close"` // records fed after Close returned
+	// Swap, when set, is a second scenario on its own hook: the writer is
+	// parked inside a write, SetAsync is called again (which closes the
+	// previous emitter and waits for it to drain) while the racers enqueue.
+	Swap *c39Swap `json:"swap,omitempty"`
+}
+
+type c39Swap struct {
+	Queue1  int   `json:"queue1"`
+	Queue2  int   `json:"queue2"`
+	Prefill int   `json:"prefill"` // records enqueued alone before the swap (beyond the one the writer is parked on)
+	Racers  []int `json:"racers"`  // records enqueued by each goroutine concurrently with the swap
+	Yield   int   `json:"yield"`   // scheduler yields the swapper makes before calling SetAsync
 }
 
 type c39Case struct {
@@ -95,6 +107,18 @@ func genC39(t *rapid.T) c39Case {
 		a.Racing = append(a.Racing, rapid.IntRange(1, 30).Draw(t, "nrace"))
 	}
 	a.AfterClose = rapid.IntRange(0, 3).Draw(t, "afterclose")
+	if rapid.IntRange(0, 2).Draw(t, "swap?") == 0 {
+		sw := &c39Swap{}
+		sw.Queue1 = []int{1, 2, 8, 64}[rapid.IntRange(0, 3).Draw(t, "swapq1")]
+		sw.Queue2 = []int{1, 2, 8, 64}[rapid.IntRange(0, 3).Draw(t, "swapq2")]
+		sw.Prefill = rapid.IntRange(0, 4).Draw(t, "swapprefill")
+		nsw := rapid.IntRange(1, 8).Draw(t, "swapracers")
+		for i := 0; i < nsw; i++ {
+			sw.Racers = append(sw.Racers, rapid.IntRange(1, 60).Draw(t, "swapn"))
+		}
+		sw.Yield = rapid.IntRange(0, 3).Draw(t, "swapyield")
+		a.Swap = sw
+	}
 	return c
 }
 
@@ -294,13 +318,15 @@ func runC39Real(c c39Case, out *lib.Outcome) {
 // ---- async emission ----
 
 type gatedWriter struct {
-	mu    sync.Mutex
-	lines [][]byte
-	gate  chan struct{} // closed = open
-	slow  bool
+	mu      sync.Mutex
+	lines   [][]byte
+	gate    chan struct{} // closed = open
+	slow    bool
+	entered atomic.Int64 // calls to Write so far, counted before they wait on the gate
 }
 
 func (g *gatedWriter) Write(p []byte) (int, error) {
+	g.entered.Add(1)
 	<-g.gate
 	if g.slow {
 		time.Sleep(50 * time.Microsecond)
@@ -617,11 +643,178 @@ waitA:
 	}
 }
 
+// runC39Swap: SetAsync called again while the previous emitter's writer is
+// parked inside a write. SetAsync itself waits for the old queue to drain
+// (it is the closer); the dispatches racing with it must all return while
+// the writer is still parked: those that picked up the old emitter find it
+// open or closed, those that picked up the new one find a queue with room or
+// a full one, and neither answer involves the writer.
+func runC39Swap(c c39Case, out *lib.Outcome) {
+	sw := c.Async.Swap
+	if sw == nil {
+		return
+	}
+	out.Label("async:swap-under-stall")
+	gw := &gatedWriter{gate: make(chan struct{})}
+	gateOpen := false
+	openGate := func() {
+		if !gateOpen {
+			gateOpen = true
+			close(gw.gate)
+		}
+	}
+	defer openGate()
+	hook := vgirpc.NewAccessLogHook(gw, "")
+	if err := hook.SetAsync(sw.Queue1); err != nil {
+		out.Violate("C39/async-setup", "SetAsync(%d): %v", sw.Queue1, err)
+		return
+	}
+	swapDone := make(chan struct{})
+	swapStarted := false
+	defer func() {
+		openGate()
+		if swapStarted {
+			select {
+			case <-swapDone:
+			case <-time.After(hardBound):
+				return
+			}
+		}
+		hook.Close()
+	}()
+	fed := 1
+	feedHook(hook, baseInfo("park", vgirpc.DispatchMethodUnary), nil)
+	for begin := time.Now(); gw.entered.Load() == 0; {
+		if time.Since(begin) > 20*time.Second {
+			out.Label("skipped:swap-writer-never-started")
+			return
+		}
+		time.Sleep(50 * time.Microsecond)
+	}
+	for i := 0; i < sw.Prefill; i++ {
+		feedHook(hook, baseInfo(fmt.Sprintf("pre_%d", i), vgirpc.DispatchMethodUnary), nil)
+		fed++
+	}
+	var progress, panics atomic.Int64
+	var firstPanic atomic.Value
+	var wg sync.WaitGroup
+	start := make(chan struct{})
+	total := 0
+	for g, n := range sw.Racers {
+		total += n
+		wg.Add(1)
+		go func(g, n int) {
+			defer wg.Done()
+			defer func() {
+				if rv := recover(); rv != nil {
+					panics.Add(1)
+					firstPanic.CompareAndSwap(nil, fmt.Sprint(rv))
+				}
+			}()
+			<-start
+			for i := 0; i < n; i++ {
+				feedHook(hook, baseInfo(fmt.Sprintf("sw_%d_%d", g, i), vgirpc.DispatchMethodUnary), nil)
+				progress.Add(1)
+			}
+		}(g, n)
+	}
+	fed += total
+	var swapErr error
+	swapStarted = true
+	go func() {
+		defer close(swapDone)
+		<-start
+		for i := 0; i < sw.Yield; i++ {
+			runtime.Gosched()
+		}
+		swapErr = hook.SetAsync(sw.Queue2)
+	}()
+	done := make(chan struct{})
+	go func() { wg.Wait(); close(done) }()
+	close(start)
+	begin := time.Now()
+	last, lastChange := int64(-1), time.Now()
+wait:
+	for {
+		select {
+		case <-done:
+			break wait
+		case <-time.After(20 * time.Millisecond):
+		}
+		if p := progress.Load(); p != last {
+			last, lastChange = p, time.Now()
+		}
+		if time.Since(lastChange) > stallWindow {
+			out.Violate("C39/async-enqueue-blocks-during-close", "writer parked in a write, SetAsync(%d) replacing a queue of %d: %d of %d racing dispatches returned and none completed for %v — enqueue is waiting for the old emitter to drain",
+				sw.Queue2, sw.Queue1, last, total, stallWindow)
+			openGate()
+			select {
+			case <-done:
+			case <-time.After(hardBound):
+			}
+			return
+		}
+		if time.Since(begin) > hardBound {
+			out.Skipped = true
+			out.Label("skipped:slow-machine")
+			return
+		}
+	}
+	out.Label("async:swap-all-returned-while-parked")
+	openGate()
+	select {
+	case <-swapDone:
+	case <-time.After(hardBound):
+		out.Skipped = true
+		out.Label("skipped:swap-slow")
+		return
+	}
+	if swapErr != nil {
+		out.Violate("C39/async-setup", "second SetAsync(%d): %v", sw.Queue2, swapErr)
+	}
+	hook.Close()
+	swapStarted = false
+	if panics.Load() > 0 {
+		out.Violate("C39/async-enqueue-panics", "%d dispatches panicked inside the hook during the swap: %v", panics.Load(), firstPanic.Load())
+	}
+	// what reached the writer: one line each, nothing twice, and never more
+	// (written + reported dropped) than was fed
+	seen := map[string]bool{}
+	var dropped int64
+	lines := gw.snapshot()
+	for _, raw := range lines {
+		ls, _ := splitLines(raw)
+		if len(raw) == 0 || raw[len(raw)-1] != '\n' || bytes.Count(raw, []byte("\n")) != 1 || len(ls) != 1 || ls[0].Rec == nil {
+			out.Violate("C39/async-line-framing", "a write during the swap is not exactly one JSON line: %q", lib.Short(string(raw), 200))
+			continue
+		}
+		m, _ := asString(ls[0].Rec["method"])
+		if seen[m] {
+			out.Violate("C39/async-written-twice", "record %s was written more than once across the swap", m)
+		}
+		seen[m] = true
+		if v, ok := ls[0].Rec["dropped_records"]; ok {
+			if n, isInt := asInt(v); isInt && n > 0 {
+				dropped += n
+			} else {
+				out.Violate("C39/async-dropped-field", "dropped_records=%v on %s", v, m)
+			}
+		}
+	}
+	if !seen["park"] {
+		out.Violate("C39/async-accounting-lost", "the record the writer was parked on when SetAsync replaced the emitter was never written")
+	}
+	if int64(len(lines))+dropped > int64(fed) {
+		out.Violate("C39/async-accounting-excess", "across the swap: written %d + dropped_records %d exceeds the %d records fed", len(lines), dropped, fed)
+	}
+}
+
 func runC39(c c39Case) (out lib.Outcome) {
 	lib.ResetEvents()
 	runC39Sampling(c, &out)
 	runC39Real(c, &out)
 	runC39Async(c, &out)
+	runC39Swap(c, &out)
 	return
 }
 
@@ -629,13 +822,13 @@ var propC39 = lib.Prop[c39Case]{
 	ID: "C39",
 	Rule: "per case (a) 1-40 records fed through a sampling AccessLogHook (rates 0, 1e-9, 0.25, 0.5, 0.75, 1-1e-9, 1, random), stream records drawn from 1-6 shared stream ids with varying request ids, unary records from a pool of 6 request ids or none, a quarter of them errors; " +
 		"(b) in a quarter of the cases 1-3 real HTTP calls (unary, producer with a batch limit followed to the end, exchange of 1-3 turns) through a sampled hook; " +
-		"(c) an async hook (queue 1-64) over a writer gated by the harness (blocked until every enqueuer returned / 50 µs per record / fast), 1-8 goroutines released together enqueueing 0-40 records each, then sentinel records fed alone until one is written, then 0-4 goroutines enqueueing concurrently with Close, then 0-3 dispatches after Close. " +
+		"(c) an async hook (queue 1-64) over a writer gated by the harness (blocked until every enqueuer returned / 50 µs per record / fast), 1-8 goroutines released together enqueueing 0-40 records each, then sentinel records fed alone until one is written, then 0-4 goroutines enqueueing concurrently with Close, then 0-3 dispatches after Close; in a third of the cases also a second hook whose writer is parked inside a write while SetAsync replaces its emitter (queues 1-64) and 1-8 goroutines dispatch 1-60 records each concurrently: all must return while the writer stays parked. " +
 		"Oracle: error records always written; non-error records sharing a stream id (else a request id) all written or all absent; written non-error records carry sample_rate = rate; with the writer gated shut every enqueuer returns (violation only if no enqueue completes for 10 s while the gate is shut); " +
 		"lines up to the sentinel: count + sum(dropped_records) = records enqueued before it (exact), each record written at most once, one JSON line per write; after it only the inequality. " +
 		"Non-trivial: a written record carrying dropped_records > 0 (a drop followed by a later written record).",
 	Gen:          genC39,
 	Run:          runC39,
-	Essential:    []string{"async:blocked", "async:slow", "async:fast", "async:drop-then-written", "async:overfull-while-blocked", "async:racing-close", "sample:group-kept", "sample:group-dropped", "sample:error-kept", "sample:real-stream-multi", "rate:0", "rate:tiny", "rate:mid", "rate:1"},
+	Essential:    []string{"async:blocked", "async:slow", "async:fast", "async:drop-then-written", "async:overfull-while-blocked", "async:racing-close", "async:swap-all-returned-while-parked", "sample:group-kept", "sample:group-dropped", "sample:error-kept", "sample:real-stream-multi", "rate:0", "rate:tiny", "rate:mid", "rate:1"},
 	EssentialMin: 300,
 	Assumptions: []string{
 		"'enqueued before close' means the dispatch returned before Close was called; records fed concurrently with or after Close are only required not to be written twice",
